@@ -282,10 +282,29 @@ impl Jsonify for Value {
       Value::List(items) => items.jsonify(),
       Value::Number(value) => value.jsonify(),
       Value::Null(_) => "null".to_string(),
-      Value::String(s) => format!("\"{}\"", s),
-      _ => format!("jsonify not implemented for: {}", self),
+      Value::String(s) => json_string(s),
+      _ => json_string(&self.to_string()),
     }
   }
+}
+
+/// Returns the `JSON` string literal for the specified text.
+pub(crate) fn json_string(text: &str) -> String {
+  let mut literal = String::with_capacity(text.len() + 2);
+  literal.push('"');
+  for ch in text.chars() {
+    match ch {
+      '"' => literal.push_str("\\\""),
+      '\\' => literal.push_str("\\\\"),
+      '\n' => literal.push_str("\\n"),
+      '\r' => literal.push_str("\\r"),
+      '\t' => literal.push_str("\\t"),
+      ch if (ch as u32) < 0x20 => literal.push_str(&format!("\\u{:04x}", ch as u32)),
+      ch => literal.push(ch),
+    }
+  }
+  literal.push('"');
+  literal
 }
 
 impl Value {
